@@ -115,9 +115,12 @@ def gen_hist_gt(rng, tier):
                 if rs is None or rng.random() < 0.6:
                     cs = rng.sample(ids_v, rng.randint(1, 5))
                 ops.append({"k": "subset", "rs": rs, "cs": cs, "inplace": rng.random() < 0.45})
-            elif r < 0.88:
+            elif r < 0.84:
+                # merge with a second object that holds the same samples (in the same or in another order) and one further variant
+                ops.append({"k": "merge_variants", "order": rng.choice(["same", "reversed", "rotated"])})
+            elif r < 0.9:
                 ops.append({"k": "check_missing"})
-            elif r < 0.94:
+            elif r < 0.95:
                 ops.append({"k": "check_biallelic"})
             else:
                 ops.append({"k": "check_maf", "num": rng.choice([1, 2]), "den": rng.choice([3, 4])})
@@ -136,11 +139,57 @@ def fresh_clone(g):
     return c
 
 
+def _dosage_by_id(g, ids):
+    """beta-weighted dosage (beta_j = j + 1) of the variants bearing `ids`, per sample, straight from the object's visible arrays"""
+    d = np.asarray(g.data)
+    cols = [str(v) for v in g.variants["id"]]
+    out = []
+    for i in range(d.shape[0]):
+        # a variant the object no longer holds contributes nothing (its effect must not land on another column)
+        out.append(float(sum((k + 1) * (int(d[i, cols.index(v), 0]) + int(d[i, cols.index(v), 1])) for k, v in enumerate(ids) if v in cols)))
+    return out
+
+
 def impl_hist_gt(case):
+    from collections import namedtuple
+
     g = mk_gt(case["cls"])
     trace, mops = [], []
+    sim = sim_ids = sim_rows = None
+    Effect = namedtuple("Effect", "id beta")
+    stopped = False
     for o in case["ops"]:
         e = {}
+        if o["k"] == "merge_variants":
+            # by-ID outcome only (no model step): refused, or every cell of the merged object is the cell bearing that (sample, variant)
+            d0 = np.asarray(g.data)
+            if d0.ndim != 3 or d0.dtype == np.bool_ or 0 in d0.shape or case["cls"] == "GenotypesAncestry" or "extra" in [str(v) for v in g.variants["id"]]:
+                mops.append({"k": "index", "r": False, "c": False})
+                trace.append({"state": enc_gt(g)})
+                continue
+            rows = [str(x) for x in g.samples]
+            order = rows if o["order"] == "same" else (rows[::-1] if o["order"] == "reversed" else rows[1:] + rows[:1])
+            other = fresh_clone(g).subset(samples=tuple(order), variants=(str(g.variants["id"][0]),))
+            other.variants = other.variants.copy()
+            other.variants["id"][0] = "extra"
+            other.variants["pos"][0] = 9999
+            truth = {(s_, "extra"): [int(x) for x in np.asarray(other.data)[i, 0, :2]] for i, s_ in enumerate(order)}
+            for i, s_ in enumerate(rows):
+                for j, v_ in enumerate(g.variants["id"]):
+                    truth[(s_, str(v_))] = [int(x) for x in d0[i, j, :2]]
+            try:
+                m = g.__class__.merge_variants((g, other), fname=g.fname, log=g.log)
+                md = np.asarray(m.data)
+                bad = [(str(s_), str(v_)) for i, s_ in enumerate(m.samples) for j, v_ in enumerate(m.variants["id"]) if [int(x) for x in md[i, j, :2]] != truth.get((str(s_), str(v_)))]
+                e["merge"] = {"refused": False, "order": o["order"], "wrong_cells": bad[:4], "samples": [str(x) for x in m.samples], "variants": [str(x) for x in m.variants["id"]]}
+            except Exception as ex:  # noqa
+                if not C.deliberate_raise(ex):
+                    raise
+                e["merge"] = {"refused": True, "order": o["order"]}
+            mops.append({"k": "index", "r": False, "c": False})
+            e["state"] = enc_gt(g)
+            trace.append(e)
+            continue
         if o["k"] == "read":
             kw = dict(region=o["region"], samples=None if o["samples"] is None else set(o["samples"]), variants=None if o["variants"] is None else set(o["variants"]))
             f = mk_gt(case["cls"])
@@ -154,7 +203,17 @@ def impl_hist_gt(case):
                 e["state"] = enc_gt(g)
                 e["state"]["data"] = [[] for _ in e["state"]["rows"]]
                 trace.append(e)
+                stopped = True
                 break
+            if sim is None:
+                # phenotype simulation as a by-ID query: one simulator for the whole history, asked once now and once at the end
+                from haptools.sim_phenotype import PhenoSimulator
+
+                sim = PhenoSimulator(g, seed=7, log=SD.silent_log())
+                sim_ids = view["cols"][: min(2, len(view["cols"]))]
+                e["simulated_first"] = C.guarded(lambda: [float(x) for x in sim.run([Effect(v, float(k + 1)) for k, v in enumerate(sim_ids)], heritability=1, normalize=False)])
+                e["simulated_first_want"] = _dosage_by_id(g, sim_ids)
+                sim_rows = len(view["rows"])
         elif o["k"] == "index":
             g.index(samples=o["r"], variants=o["c"])
             mops.append(o)
@@ -199,6 +258,15 @@ def impl_hist_gt(case):
             mops.append({"k": "dropCols", "idx": idx})
         e["state"] = enc_gt(g)
         trace.append(e)
+    if sim is not None and not stopped and trace:
+        d = np.asarray(g.data)
+        cols = [str(v) for v in g.variants["id"]]
+        e = trace[-1]
+        e["simulated_last"] = C.guarded(lambda: [float(x) for x in sim.run([Effect(v, float(k + 1)) for k, v in enumerate(sim_ids)], heritability=1, normalize=False)])
+        e["simulated_last_want"] = _dosage_by_id(g, sim_ids) if d.ndim == 3 and d.shape[0] else None
+        e["simulated_ids"] = sim_ids
+        # the simulator archives every vector it returns next to the earlier ones: once the number of samples has changed it can only refuse
+        e["simulated_rows_changed"] = d.ndim != 3 or d.shape[0] != sim_rows
     _mops[C.jdump(case)] = mops
     return {"trace": trace}
 
@@ -230,6 +298,22 @@ def oracle_hist(case, obs):
     if "error" in obs:
         return f"history raised {obs}"
     for k, (o, e) in enumerate(zip(case["ops"], obs["trace"])):
+        if "merge" in e:
+            m = e["merge"]
+            if m["refused"] and m["order"] == "same":
+                return f"op {k}: merging with an object that holds the same samples in the same order was refused"
+            if not m["refused"] and m["wrong_cells"]:
+                return f"op {k}: merged with an object holding the same samples in {m['order']} order: the cells {m['wrong_cells']} of the result are not the genotypes those samples have at those variants (rows joined by position, not by ID)"
+        for tag in ("first", "last"):
+            if f"simulated_{tag}" in e:
+                got, want = e[f"simulated_{tag}"], e.get(f"simulated_{tag}_want")
+                ids_ = e.get("simulated_ids")
+                if isinstance(got, dict) and "error" in got and (want is None or e.get("simulated_rows_changed")):
+                    continue  # a refusal, where the simulator cannot answer
+                if want is None:
+                    return f"op {k}: phenotype simulation for {ids_} answered {got} although the object holds no sample"
+                if isinstance(got, dict) or len(got) != len(want) or any(abs(a - b) > 1e-9 for a, b in zip(got, want)):
+                    return f"op {k}: phenotype simulation ({tag} call of one simulator, noise-free, raw dosages, betas 1, 2) gave {got}; the object's current rows and columns bearing these IDs give {want}"
         if "biallelic_kept" in e and e["biallelic_kept"][0] != e["biallelic_kept"][1]:
             return f"op {k}: check_biallelic(discard_also=True) left variants {e['biallelic_kept'][0]}, the variants without an allele index above 1 are {e['biallelic_kept'][1]}"
         if o["k"] != "subset":
